@@ -169,7 +169,7 @@ def runLive (c : Case) : String :=
   let n := if thr == "all" then nAll else if thr == "cores" then nCores else thr.toNat?.getD 0
   let maxc := if c.getNat "cores" == 0 then n else c.getNat "cores"
   let cfg : Cfg := { cfg0 with n := n, maxCores := maxc }
-  let ctx := s!"bind {bind}, threads {thr}, " ++ (if use then "process mask used" else if maxc < n then "process mask ignored, cores below thread count" else "process mask ignored")
+  let ctx := s!"bind {bind}, threads {n}, " ++ (if use then "process mask used" else if maxc < n then "process mask ignored, cores below thread count" else "process mask ignored") ++ (if thr.toNat?.isSome then "" else s!"; --pika:threads={thr}")
   let mon := liveMonitors bind use pmL (if maxc < n && !use then some n else some n) ctx c.lines
   let monS := if mon.isEmpty then "monitors ok" else "monitors FAIL: " ++ " | ".intercalate mon
   let hd := firstWith c.lines "live "
